@@ -91,6 +91,17 @@ func main() {
 				fmt.Printf("   ev[%d] %s %s recv=%s args=%s @%s nf=%d\n", e.Idx, e.Kind, e.Name, r, strings.Join(as, " | "), P.Pos(e.Instr.Pos()), e.NFacts)
 			}
 		}
+	case "purelist":
+		P, err := loadProgram(repoDir(), nil)
+		if err != nil {
+			fmt.Fprintln(os.Stderr, err)
+			os.Exit(2)
+		}
+		for _, f := range P.AllFuncs {
+			if P.inferredPure(f) {
+				fmt.Println(f.String())
+			}
+		}
 	case "funcs":
 		P, err := loadProgram(repoDir(), nil)
 		if err != nil {
